@@ -88,29 +88,36 @@ def run(pid):
     # 0. (C04) the byte-accurate mechanism model with both collectors: Store.tla model-checked (Refines at every state, so a
     #    cycle never changes the contents), every transition executed on the real store (verdict: StoreTrace), the model's
     #    files compared with the projection of the real files after every flush and every cycle (StoreMTrace: conformance figure)
-    if pid == "C04":
+    if pid in ("C04", "C02"):
         mkeys = [[1, 7, 7, 0, 9, 0, 3, 3], [1, 7, 7, 0, 9, 0, 3, 4], [2, 7, 7, 0, 9, 0, 3, 3]]
         drift_total = checked_total = 0
+        # C04: Store.tla with both collectors.  C02: StoreCrash.tla = Store.tla + Close/reopen through the snapshot or the
+        # rescan (ReopenPathsAgree, SnapshotEqualsRescan model-checked; the reopen step replayed and compared by StoreMTrace)
+        module, inv_names, want = ("MCStore", "Refines / PredictedPositionsExact / FreedOnce", ("idxgc", "prigc")) if pid == "C04" else \
+                                  ("MCStoreCrash", "Refines / ReopenPathsAgree / NoLiveFreed / PureAgrees", ("reopen",))
         for pl, il, mc in ([(33, 30, 6), (70, 70, 6)] if thorough else [(33, 30, 5)]):
             consts = {"Vals": "{0, 5}", "PriLimit": pl, "IdxLimit": il, "MaxCalls": mc, "WithGC": "TRUE", "LowUses": "{0, 101}"}
-            r0 = vlib.tlc_must("MCStore", "MCStore_mc.cfg", consts=consts, timeout=3000)
+            if pid == "C02":
+                consts.update({"CommitOrder": '"pif"', "Faults": '{"reopen"}'})
+            r0 = vlib.tlc_must(module, module + "_mc.cfg", consts=consts, timeout=3000)
             if r0.violated:
-                raise vlib.Infra("Store.tla (with GC) violates Refines / PredictedPositionsExact / FreedOnce - replay the counter-example first:\n" + r0.out[-2500:])
+                raise vlib.Infra("the mechanism model violates %s - replay the counter-example first:\n" % inv_names + r0.out[-2500:])
             rep.add_model(r0)
-            ms, g0, nexp = vlib.gen_scenarios("MCStore", "MCStore", consts, edges=True, timeout=3000)
-            ms = [m for m in ms if any(o["op"] in ("idxgc", "prigc") for o in m["ops"])]
-            mcfg = dict(primary="mh", bits=8, il=il, pl=pl, imm=False, keys=mkeys, vals=["empty", "b5"], proj=True, probe="end")
+            ms, g0, nexp = vlib.gen_scenarios(module, module, consts, edges=True, timeout=3000)
+            ms = [m for m in ms if any(o["op"] in want for o in m["ops"])]
+            mcfg = dict(primary="mh", bits=8, il=il, pl=pl, imm=False, keys=mkeys, vals=["empty", "b5"], proj=True, probe="end", cmp=(pid == "C02"))
             msc = [{"cfg": mcfg, "ops": [dict(o, v=(1 if o.get("vlen") == 0 else 2)) if o["op"] == "put" else o for o in m["ops"]]} for m in ms]
-            vlib.log("C04: Store.tla with GC, limits %d/%d, <= %d calls: %d states, %d transitions, %d maximal histories with a GC cycle" % (pl, il, mc, g0.distinct, nexp, len(msc)))
+            vlib.log("%s: mechanism model, limits %d/%d, <= %d calls: %d states, %d transitions, %d maximal histories with %s" % (pid, pl, il, mc, g0.distinct, nexp, len(msc), "/".join(want)))
             for i in range(0, len(msc), 60000):
                 part = msc[i:i + 60000]
                 bym, nm = seqeng.run_and_judge(part, "mech", monitors=[("StoreTrace", None)], keep=True)
                 minem, otherm = attribute(spec, part, bym)
                 report_bad(rep, part, minem)
-                drift, nl, _ = vlib.validate_traces("StoreMTrace", "StoreMTrace.cfg", seqeng.KEPT_FILES, consts=dict(consts, MaxCalls=100000))
+                mconsts = {k: v for k, v in dict(consts, MaxCalls=100000).items() if k not in ("CommitOrder", "Faults")}   # fixed in StoreMTrace.cfg
+                drift, nl, _ = vlib.validate_traces("StoreMTrace", "StoreMTrace.cfg", seqeng.KEPT_FILES, consts=mconsts)
                 for f in seqeng.KEPT_FILES:
                     os.unlink(f)
-                drift_total += len({b["t"] for b in drift})
+                drift_total += len({(b["file"], b["t"]) for b in drift})
                 rep.cov["evaluations"] += nm
             checked_total += len(msc)
             total += len(msc)
